@@ -36,6 +36,13 @@ def run_one(s):
     def coords(p):
         return torch.cat([p.coordinates[v] for v in vs], dim=1).detach()
 
+    made = {}
+
+    def sampler(key, mk):          # ONE sampler object per law and scenario: earlier calls are history on the same object
+        if key not in made:
+            made[key] = mk()
+        return made[key]
+
     def call(law, N):
         if law == "uniform":
             return watched(lambda: dom.sample_random_uniform(n=N, params=par), 20)
@@ -44,10 +51,13 @@ def run_one(s):
         if law == "grid":
             return watched(lambda: dom.sample_grid(n=N, params=par), 20)
         if law == "gauss":
-            smp = tp.samplers.GaussianSampler(dom, n_points=N, mean=[m / 4.0 for m in s["mean"]], std=s["std"] / 4.0)
-            return watched(lambda: smp.sample_points(par), 30)
+            smp = sampler(("gauss", N), lambda: tp.samplers.GaussianSampler(dom, n_points=N, mean=[m / 4.0 for m in s["mean"]], std=s["std"] / 4.0))
+            return watched(lambda: smp.sample_points(par), 60)
         if law == "lhs":
-            smp = tp.samplers.LHSSampler(dom, n_points=N)
+            smp = sampler(("lhs", N), lambda: tp.samplers.LHSSampler(dom, n_points=N))
+            return watched(lambda: smp.sample_points(par), 20)
+        if law == "expint":
+            smp = sampler(("expint", N), lambda: tp.samplers.ExponentialIntervalSampler(dom, n_points=N, exponent=(2 if s["std"] == 2 else 0.5)))
             return watched(lambda: smp.sample_points(par), 20)
         raise ValueError(law)
     for pre in s.get("pre") or []:          # earlier calls on the SAME domain object (history must not matter)
